@@ -1,6 +1,6 @@
 SPEC = {
     "runners": [
-        {"kind": "coqcases", "harness": "c11", "name": "seq",
+        {"kind": "coqcases", "module": "CorrC11", "harness": "c11", "name": "seq",
          "corr": "Run/CorrC11.v (GStack model/queue spec vs /repo/storage/genericStack.go; Lib/GoHeap vs container/heap)",
          "rule": "case = one operation sequence on a fresh GenericStack (compared output-for-output with the queue specification and the heap model) or one random container/heap run (array compared after every call with the verified mirror); distinct = by sequence; non-trivial = a Pop returned a stored value or a Peek hit (heap runs always count)."},
     ],
